@@ -417,6 +417,60 @@ fn run(ctx: &mut Ctx) {
         }
         ctx.par_sweep("carry-over", cases.into_par_iter(), |c| check_case(&c));
     }
+    // long tokens: the payload at and around the sizes at which code reading a
+    // long string or name works block by block (256 B .. 64 KiB of content
+    // before it), so that it straddles such a boundary
+    {
+        let mut payloads: Vec<Vec<u8>> = (0x80u32..=0xFF).map(|b| vec![b as u8]).collect();
+        for lead in 0xC0u32..=0xFF {
+            for cont in [0x7Fu8, 0x80, 0xBF, 0xC0] {
+                payloads.push(vec![lead as u8, cont]);
+            }
+        }
+        for lead in 0xE0u8..=0xEF {
+            for b1 in [0x7Fu8, 0x80, 0x9F, 0xA0, 0xBF, 0xC0] {
+                for b2 in [0x7Fu8, 0x80, 0xBF, 0xC0] {
+                    payloads.push(vec![lead, b1, b2]);
+                }
+            }
+        }
+        payloads.extend(four_byte_payloads());
+        payloads.push(vec![0xC3, 0xA9]);
+        payloads.push(vec![0xE2, 0x82, 0xAC]);
+        let bounds: Vec<usize> = match tier {
+            Tier::Quick => vec![256, 1024, 4096, 8192],
+            Tier::Thorough => vec![256, 1024, 4096, 8192, 16384, 65536],
+        };
+        let forms: [(&[u8], &[u8], usize); 4] = [(b"\"", b"z\"", 0), (b"", b"z", 0), (b"\"", b"z\"", QOpt::elisp().index()), (b"(x \"", b"\" y)", 0)];
+        let mut cases = Vec::new();
+        for &b in &bounds {
+            for len in b - 4..=b + 1 {
+                for (fi, (pre, post, q)) in forms.iter().enumerate() {
+                    for shifted in [false, true] {
+                        // every payload on the small boundaries, a tenth of them (rotating) on the large ones
+                        let step = if b <= 4096 { 1 } else { 7 };
+                        for (pi, pl) in payloads.iter().enumerate() {
+                            if (pi + len + fi) % step != 0 {
+                                continue;
+                            }
+                            let mut input = Vec::with_capacity(len + 16);
+                            input.extend_from_slice(pre);
+                            if shifted {
+                                input.extend_from_slice("é".as_bytes());
+                            }
+                            while input.len() < pre.len() + len {
+                                input.push(b'a');
+                            }
+                            input.extend_from_slice(pl);
+                            input.extend_from_slice(post);
+                            cases.push(Case { input, q: *q, ctx: 255, payload: pl.clone() });
+                        }
+                    }
+                }
+            }
+        }
+        ctx.par_sweep("long-token", cases.into_par_iter(), |c| check_case(&c));
+    }
     // free-form inputs
     let parent = &*ctx;
     let children: Vec<Ctx> = (0..16u32)
